@@ -109,3 +109,33 @@ fix_div_alias_bad (mpz_ptr rem, mpz_srcptr dividend, mpz_srcptr divisor)
   PTR (rem)[0] = mpn_mod_1 (PTR (dividend), nn, PTR (divisor)[0]);
   SIZ (rem) = PTR (rem)[0] != 0;
 }
+
+/* a helper that traps on a zero divisor */
+static void
+fix_check_divisor (mpz_srcptr d)
+{
+  if (UNLIKELY (SIZ (d) == 0))
+    DIVIDE_BY_ZERO;
+}
+
+/* negative: the helper is called with the divisor before anything divides */
+void
+fix_div_helper_good (mpz_ptr rem, mpz_srcptr dividend, mpz_srcptr divisor)
+{
+  mp_size_t nn = ABSIZ (dividend);
+  fix_check_divisor (divisor);
+  MPZ_REALLOC (rem, 1);
+  PTR (rem)[0] = nn == 0 ? 0 : mpn_mod_1 (PTR (dividend), nn, PTR (divisor)[0]);
+  SIZ (rem) = PTR (rem)[0] != 0;
+}
+
+/* positive: the helper is called with the DIVIDEND */
+void
+fix_div_helper_bad (mpz_ptr rem, mpz_srcptr dividend, mpz_srcptr divisor)
+{
+  mp_size_t nn = ABSIZ (dividend);
+  fix_check_divisor (dividend);
+  MPZ_REALLOC (rem, 1);
+  PTR (rem)[0] = mpn_mod_1 (PTR (dividend), nn, PTR (divisor)[0]);
+  SIZ (rem) = PTR (rem)[0] != 0;
+}
